@@ -26,7 +26,7 @@ RULE = ("case = delete: target {Array with metadata, RaggedArray, plain dir, fil
 ASSUMPTIONS = ["a symlink whose name collides with a Darr file name counts as foreign content",
                "Darr's own regular files may be gone after a delete that raises OSError because of foreign entries (the property allows it)"]
 EXHAUSTIVE = None
-FKINDS = ['file', 'dir', 'symfile', 'symdir', 'dangling', 'collide-symlink', 'collide-dir', 'casevariant', 'nearname']
+FKINDS = ['file', 'dir', 'symfile', 'symdir', 'dangling', 'collide-symlink', 'collide-dir', 'casevariant', 'nearname', 'nested-darr']
 CREATORS = ['asarray', 'create_array', 'asraggedarray', 'create_raggedarray', 'Array.copy', 'RaggedArray.copy', 'archive']
 FAILS = [None, 'iter-raises-later', 'bad-later-item']
 OCCUPANTS = ['none', 'array', 'array-large', 'ragged', 'file', 'dir']
@@ -70,6 +70,17 @@ def place_foreign(base, outside, f, i, out):
         base_ = DARRNAMES[(i + f['n']) % 4]
         name = [base_ + '.tmp', base_ + '~', base_ + '.bak', '.' + base_ + '.swp', base_ + '.lock', base_ + '.new', base_ + '.old', 'tmp' + base_,
                 base_ + '.part', '.' + base_][(i * 3 + f['n'] // 4) % 10]
+    if k == 'nested-darr':
+        # the user keeps another (valid) Darr array inside this array's directory
+        import darr
+        name = ['spectrogram', 'derived', 'old'][(i + f['n']) % 3] + f'{i}' + ['.darr', ''][(i + f['n']) % 2]
+        if os.path.lexists(os.path.join(base, name)):
+            return None
+        if (i + f['n']) % 2:
+            darr.asarray(os.path.join(base, name), np.arange(4, dtype='float32'), metadata={'mine': 1})
+        else:
+            darr.asraggedarray(os.path.join(base, name), [[1, 2], [3]], dtype='int8')
+        return name
     if k in ('file', 'casevariant', 'nearname'):
         with open(os.path.join(base, name), 'wb') as fh:
             fh.write(b'user data %d' % i)
